@@ -505,6 +505,15 @@ fn process_tags(
                         idx_output.insert(idx, events);
                     }
                 } else {
+                    if let Err(
+                        SvgdxError::LoopLimitError(..)
+                        | SvgdxError::VarLimitError(..)
+                        | SvgdxError::DepthLimitExceeded(..),
+                    ) = gen_result
+                    {
+                        // exceeding a limit is final; retrying would re-run side effects
+                        return gen_result.map(|_| None);
+                    }
                     if let (Some(el), Err(err)) = (el, gen_result) {
                         if let SvgdxError::MultiError(err_list) = err {
                             for (idx, (el, err)) in err_list {
